@@ -303,7 +303,10 @@ class Interp:
         if name in self.V.spec_ns and self.V.in_contract_expr:
             return self.V.spec_ns[name]
         if self.V.in_contract_expr and name in getattr(self, "ghost", {}):
-            return self.ghost[name]
+            g = self.ghost[name]
+            if type(g).__name__ == "DriftedGhost":
+                raise Unsupported(g.msg)
+            return g
         if self.V.in_contract_expr and name == "trace":
             for fr in reversed(self.frames):
                 if fr.is_generator:
